@@ -698,9 +698,12 @@ class LogicalLinkController(object):
                 log.debug("can't dispatch PDU %s", rcvd_pdu)
 
     def resolve(self, name):
+        sap = self.sap[1]
+        if sap is None:
+            return None  # link terminated
         if isinstance(name, (bytes, bytearray)):
-            return self.sap[1].resolve(bytes(name))
-        return self.sap[1].resolve(name.encode('latin'))
+            return sap.resolve(bytes(name))
+        return sap.resolve(name.encode('latin'))
 
     def socket(self, socket_type):
         if socket_type == RAW_ACCESS_POINT:
@@ -822,7 +825,14 @@ class LogicalLinkController(object):
             raise err.Error(errno.EOPNOTSUPP)
         while True:
             client = socket.accept()
-            self.sap[client.addr].insert_socket(client)
+            with self.lock:
+                sap = self.sap[client.addr] if client.is_bound else None
+                if sap is not None:
+                    sap.insert_socket(client)
+            if sap is None:  # link terminated
+                client.bind(None)
+                client.close()
+                raise err.Error(errno.EPIPE)
             log.debug("new data link connection ({0} <=== {1})"
                       .format(client.addr, client.peer))
             if client.send_miu > self.cfg['send-miu']:
@@ -883,8 +893,10 @@ class LogicalLinkController(object):
     def close(self, socket):
         if not isinstance(socket, tco.TransmissionControlObject):
             raise err.Error(errno.ENOTSOCK)
-        if socket.is_bound:
-            self.sap[socket.addr].remove_socket(socket)
+        with self.lock:
+            sap = self.sap[socket.addr] if socket.is_bound else None
+        if sap is not None:
+            sap.remove_socket(socket)
         else:
             socket.close()
 
